@@ -39,6 +39,7 @@ def run(ctx):
     c12_2(ctx)
     c12_3(ctx)
     c12_4(ctx)
+    c12_5(ctx)
 
 
 def c12_1(ctx):
@@ -480,3 +481,62 @@ def c12_more_exact(ctx):
         sw = [x for x in range(b.n) if x in b.reach and b.blocks[x]["t"]["k"] == "switch"]
         ctx.ob(R, "hash:unconditional", ok and not sw, "merkle_set::hash is a single path: sha256(prefix || types || left || right) for every type combination",
                found=[r[2][:80] for r in rows][:2], where=b.fn.sp)
+
+
+# ------------------------------------------------------------------ C12.5 (round 7)
+_BITS = {"u8": 8, "u16": 16, "u32": 32, "u64": 64, "usize": 64, "u128": 128, "i8": 8, "i16": 16, "i32": 32, "i64": 64, "isize": 64,
+         "i128": 128}
+# narrowing integer casts of the Merkle code, reviewed on the armed tree: node indices are u32 (a proof / tree with 2^32 nodes
+# does not fit in memory), bit positions u8 (depth < 256 is tested), the radix-sort helpers use i32 counters
+NARROWING_OK = {
+    ("MerkleSet::deserialize_proof_impl", "usize", "u32"), ("MerkleSet::deserialize_proof_impl", "usize", "u8"),
+    ("MerkleSet::generate_merkle_tree_recurse", "usize", "i32"), ("MerkleSet::generate_merkle_tree_recurse", "usize", "u32"),
+    ("radix_sort", "usize", "i32"),
+}
+
+
+def c12_5(ctx):
+    """(a) node indices are never narrowed below the reviewed widths: a truncated index makes the proof parser link / hash a
+    different, earlier node than the one that was audited (soundness), and is invisible below 2^16 nodes;
+    (b) from_leafs hands the caller's leaf slice to the tree builder whole -- no sort / re-slice / filter in between, so that
+    MerkleSet::get_root and compute_merkle_set_root are computed over the same leaf set."""
+    R = "C12.5"
+    fb = ctx.fb
+    got = set()
+    n = 0
+    for p, f in fb.fns.items():
+        if not (p.startswith("chia_consensus::merkle_tree::") or p.startswith("chia_consensus::merkle_set::")):
+            continue
+        n += 1
+        ctx.touched(p)
+        for blk in f.body["blocks"]:
+            for st in blk["s"]:
+                if st["k"] == "assign" and st["rv"]["k"] == "cast":
+                    fr, to = st["rv"].get("from"), st["rv"].get("to")
+                    if fr in _BITS and to in _BITS and _BITS[to] < _BITS[fr]:
+                        got.add((p.split("::", 2)[2], fr, to))
+    new = sorted(got - NARROWING_OK)
+    ctx.ob(R, "narrowing-casts", not new, "no integer of the Merkle set / proof code is narrowed beyond the reviewed index widths "
+           "(node index u32, bit position u8)", found=new or None)
+    ctx.floor(R, "merkle functions scanned for casts", n, 20)
+    b = U.body(ctx, R, "chia_consensus::merkle_tree::MerkleSet::from_leafs")
+    if b:
+        gens = [(bi, nm, t) for bi, nm, t in b.calls() if nm.endswith("generate_merkle_tree_recurse")]
+        ok = len(gens) == 1
+        detail = None
+        if ok:
+            a = strip_all(b.operand_term(gens[0][2]["args"][1]))
+            ok = a == ("arg", 0, "leafs") or (a[0] == "arg" and a[1] == 0)
+            detail = show(a)
+        # nothing else may touch the slice mutably or derive another slice from it
+        others = []
+        for bi, nm, t in b.calls():
+            if nm.endswith("generate_merkle_tree_recurse") or U.flat(nm).endswith("is_empty"):
+                continue
+            for a_ in t["args"]:
+                x = strip_all(b.operand_term(a_))
+                if any(isinstance(y, tuple) and y and y[0] == "arg" and y[1] == 0 for y in subterms(x)):
+                    others.append(U.flat(nm))
+        ctx.ob(R, "from_leafs:whole-slice", ok and not others,
+               "from_leafs passes its leaf slice unchanged to the tree builder; the only other use is the emptiness test",
+               found={"builder_arg": detail, "other_uses": sorted(set(others))[:4]}, where=b.fn.sp)
